@@ -4,6 +4,7 @@ CONSTANTS
   TTL_R = 5
   MaxClock = 1000000
   MaxIds = 1000000
+  MaxTokenOnly = 1000000
   MaxSteps = 0
   Secrets = {0, 1, 2}
   Findings = {}
